@@ -31,7 +31,7 @@ def group_of(h):
 
 
 def wanted(prop):
-    return [g for g in GROUPS if prop in g[2]]
+    return [g for g in GROUPS if prop in g[2] or prop == "ALL"]
 
 
 def prepare(repo, tmp):
@@ -160,7 +160,7 @@ def run(prop, tier, here, repo, tmp, seed):
                                "counterexample": test if reproduced else None, "ob_idx": None, "unit": "kani"})
             continue
         g = group_of(h)
-        if g is None or prop not in g[2]:
+        if g is None or (prop not in g[2] and prop != "ALL"):
             continue
         real = [(d, l) for (d, l) in info["failed_checks"] if not is_spurious(d, l)]
         spur = [(d, l) for (d, l) in info["failed_checks"] if is_spurious(d, l)]
